@@ -73,6 +73,16 @@ static void dump_callable (GICallableInfo *c, int d)
                    g_callable_info_can_throw_gerror (c), g_callable_info_is_method (c));
   dump_type (rt); printf ("\n");
   g_base_info_unref (rt);
+  {
+    /* attributes of the return value */
+    GIAttributeIter it = { 0, };
+    char *k, *v;
+    while (g_callable_info_iterate_return_attributes (c, &it, &k, &v))
+      {
+        const char *again = g_callable_info_get_return_attribute (c, k);
+        ind (d + 1); printf ("T %s=%s byname=%s\n", k, v, nz (again));
+      }
+  }
   int n = g_callable_info_get_n_args (c);
   for (int i = 0; i < n; i++)
     {
